@@ -56,6 +56,12 @@ CLAIMS = {
         note=A1 + 'A2: x.log2().ceil() as usize is the exact ceil(log2 x) (saturating for +inf). ASSUMED callee contracts: Linear::new keeps strictly-increasing non-dropped terms unchanged; defined_ids = set of ids. Precondition (observation): ids < 2^64-65536. Defect D1 (infinite bound => OOM loop) was found by this check and repaired in /repo (fix: a11f38c).',
         technique='contract-based deductive verification (Verus) of mechanically extracted Rust functions + inductive ghost lemmas (complete-sequence criterion over reals with an integrality predicate)',
         ref='DESIGN 6 C12'),
+    'C15': dict(
+        text='Deductive proof (Verus) of the real text of Instance::as_minimization_problem (minimise: untouched; maximise: sense := minimise, objective := negation, everything else framed; result always a minimisation problem - hence idempotent; ranking lemma) '
+             'and of the feasibility-table selection used by best_feasible*: SampleSet::feasible_relaxed / feasible_unrelaxed (legacy-field fallbacks for messages of older releases) and SampledValues::get.',
+        note=A1 + 'ASSUMED callee contract: Neg for Function (value negated up to an explicit epsilon-drop remainder). NOT covered: SampleSet::best / best_feasible* / feasible_ids (iterator chains with min_by/total_cmp closures) - the selection half of the property is only decided for its table lookups. Precondition (observation): a present objective has its oneof set.',
+        technique='contract-based deductive verification (Verus) of mechanically extracted Rust functions',
+        ref='DESIGN 6 C15'),
 }
 NA = {
     'C06': 'evaluate_samples is built from FnMut closures capturing &mut state and iterator adapters over HashMap<OrderedFloat,..>: rejected by Verus, far beyond measured Kani limits; leaf lookups alone do not decide the property (DESIGN 6 C06)',
